@@ -219,9 +219,7 @@ def namekey(ctx, rn, fam):
         for b_, bb, t in filt:
             a0 = origin(b_, t['args'][0])
             co = origin(b_, t['args'][1])
-            if b_ is not rn:
-                if not a0.params():
-                    continue
+            if b_ is not rn and a0.params():
                 recv = applied_to(b_)
                 isempty_here = False
                 for a in co.atoms:
@@ -265,7 +263,18 @@ def namekey(ctx, rn, fam):
                     in_none_of_split = any('None' in names and any(c is dt for c in oo.calls) for names, adt, oo, d_, oth in og)
                     if in_none_of_split:
                         # namespace = match object.namespace { Some(ns) => filter.., None => enclosing }
-                        attr_ok = 'namespace' in no.fields and 3 in no.params()
+                        flds, prms = set(no.fields), set(no.params())
+                        # (the fallback may be handed in as a closure and called here: `namespace: default()`; what it
+                        # returns is judged in its body, captured values resolving to this function's)
+                        for c in no.calls:
+                            if 'call_once' in cname(c) or 'call_once' in (c.get('callee') or ''):
+                                for a in origin(rn, c['args'][0]).atoms:
+                                    cb_ = rn.facts.bodies.get(a[1]) if a[0] == 'closure' else None
+                                    if cb_ is not None:
+                                        ro = origin(cb_, {'copy': {'l': 0}})
+                                        flds |= set(ro.fields)
+                                        prms |= set(ro.params())
+                        attr_ok = 'namespace' in flds and 3 in prms
         # the enclosing fallback sits in the None arm of the attribute
         for bb in sorted(rn.live_blocks()):
             for s in rn.stmts(bb):
